@@ -224,8 +224,16 @@ pub fn judge_case(c: &Case) -> Obs {
             obs.nontrivial = bytes.len() <= 4 || bytes.len() % 2 == 1 || first.map(|o| (o as i64 + n_words as i64 - 0x10000).abs() <= 2).unwrap_or(true);
             let name = if *obj_ext { "img.obj" } else { "img.lc3" };
             let dir = TempDir::new();
-            dir.write(name, bytes);
-            let run = cli::lace(&["run", name], dir.path(), &[], false, 60);
+            // a quarter of the (not too large) files are delivered through a named pipe of that name:
+            // same bytes, but `stat` reports length 0
+            let through_pipe = obs.key % 4 == 0 && bytes.len() <= 60_000;
+            let run = if through_pipe {
+                obs.label("delivered-through-a-named-pipe");
+                cli::lace_fifo(&["run", name], dir.path(), name, bytes, false, 60)
+            } else {
+                dir.write(name, bytes);
+                cli::lace(&["run", name], dir.path(), &[], false, 60)
+            };
             if run.timed_out {
                 obs.excluded = Some("watchdog");
                 return obs;
@@ -306,7 +314,7 @@ impl Prop for C06 {
     }
     fn rule(&self) -> &'static str {
         "(a) ProgGen programs (terminating, with output, optional input, origins incl. none) through the real binary: `lace compile` (over an absent destination, an older longer file, the object file of a longer version of the same program - the new image followed by further words -, a prefix of the new image, or the image itself) must exit 0 and leave exactly 2(n+1) bytes = big-endian origin (0x3000 without .orig) ++ RefAsm's words; `lace run prog.lc3` and `lace run prog.asm` (same flags, same stdin) must give the same exit status and the same stdout modulo the `target <name>` banner lines, and both must equal RefVM (exit status, banner lines, program output character for character). \
-         (b) byte strings offered as .lc3 / .obj: empty, 1 byte, odd lengths, origin only (incl. 0xFFFF, 0xFE00), images ending exactly at / one or two below / above 0x10000, ordinary images, 65,000-65,540-word images, and an enumerated grid of file sizes 131,070..262,145 bytes x origins {0,1,2,0x3000}: accepted <=> even length >= 2 and origin + n + 1 <= 0x10000; accepted files behave as RefVM says; rejected ones exit non-zero with a status other than 101, no signal, no panic message, and are not run. \
+         (b) byte strings offered as .lc3 / .obj (a quarter of them through a named pipe of that name, whose `stat` length is 0): empty, 1 byte, odd lengths, origin only (incl. 0xFFFF, 0xFE00), images ending exactly at / one or two below / above 0x10000, ordinary images, 65,000-65,540-word images, and an enumerated grid of file sizes 131,070..262,145 bytes x origins {0,1,2,0x3000}: accepted <=> even length >= 2 and origin + n + 1 <= 0x10000; accepted files behave as RefVM says; rejected ones exit non-zero with a status other than 101, no signal, no panic message, and are not run. \
          Non-trivial: the program prints and has a label or a non-default / absent origin; or the file is within 2 words of a loader limit, odd or tiny. Distinct = hash(file bytes / source + input)."
     }
     fn assumptions(&self) -> Vec<String> {
